@@ -118,6 +118,16 @@ def _relist_aliases(obj: Object) -> None:
             member._update_target_aliases()  # type: ignore[union-attr]
 
 
+def _forget_leftovers(obj: Object | Alias) -> None:
+    for member in obj.members.values():
+        if member.parent is not obj:
+            continue  # Moved into the surviving module.
+        if member.is_alias:
+            member._forget_target()  # type: ignore[union-attr]
+        else:
+            _forget_leftovers(member)
+
+
 class DelMembersMixin:
     """Mixin class to share methods for deleting members.
 
@@ -253,8 +263,15 @@ class SetMembersMixin:
                             # (A namespace package, with its several directories, is never a stubs module.)
                             if value.is_module and value.filepath != member.filepath and not isinstance(value.filepath, list):
                                 with suppress(ValueError):
+                                    if getattr(member.filepath, "suffix", None) == ".pyi":
+                                        # The new module survives and takes the member's place:
+                                        # the aliases it receives while merging must know their path.
+                                        _attach(self, value)
+                                    stubs = value
                                     value = merge_stubs(member, value)  # type: ignore[arg-type]
                                     merged = True
+                                    # What was not moved into the surviving module goes away with the other one.
+                                    _forget_leftovers(member if value is stubs else stubs)
                     aliases_to_update = list(member.aliases.values())
                 # (When two modules are merged, the members of the one that goes away live on in the other.)
                 if member is not value and not merged:
